@@ -110,7 +110,7 @@ func stormScenario(c *sup.Ctx, r *rng.R) {
 func init() {
 	sup.Register(&sup.Check{
 		Prop: "C13", Level: "exploration",
-		Rule: "model of the registry (name -> store, URL, kind, open handles) and of every handle (open / closed / store deleted); scripts over {OpenBucket x 3 modes on an in-memory name, x 3 modes on an on-disk name, the same name at another URL, a second name, Close, Close again, CloseAndDelete, write}: CloseAndDelete through a leftover handle of the incarnation that was deleted must not harm a bucket created at the same URL since; after cold-open storms the bucket must be deletable and re-creatable; every handle is probed after every step (a closed one also through feed, xattr, sub-document, counter and query entry points: all must fail with the bucket-closed error); bounded-exhaustive for all scripts of length 3 (quick) / 4 (thorough) plus random scripts of length 30; after EVERY step every handle ever created is probed (read+write: open -> success and earlier data visible, closed -> the bucket-closed error, store deleted -> some error, never a panic), GetBucketNames, the registry reference counts (verif-only accessor) and the existence of the database file are compared with the model; concurrent open/close storms on an already-created bucket (also under the race detector) with invariants at quiescence; step ForeignFile puts a file that is not rosmar's into the bucket directory (a directory without a bucket: ReOpenExisting must fail, CreateNew is not pinned; CloseAndDelete must still drop the registry entry); on-disk URLs are passed as rosmar://dir, file://dir and a plain path in turn; cold-create storms (the bucket does not exist when several goroutines open it: acknowledged writes must survive close and reopen); NamedDataStore among the closed-handle probes; cell = (step kind, mode, bucket type, registry state, outcome)",
+		Rule: "model of the registry (name -> store, URL, kind, open handles) and of every handle (open / closed / store deleted); scripts over {OpenBucket x 3 modes on an in-memory name, x 3 modes on an on-disk name, the same name at another URL, a second name, Close, Close again, CloseAndDelete, write}: CloseAndDelete through a leftover handle of the incarnation that was deleted must not harm a bucket created at the same URL since; after cold-open storms the bucket must be deletable and re-creatable; every handle is probed after every step (a closed one also through feed, xattr, sub-document, counter and query entry points: all must fail with the bucket-closed error); bounded-exhaustive for all scripts of length 3 (quick) / 4 (thorough) plus random scripts of length 30; after EVERY step every handle ever created is probed (read+write: open -> success and earlier data visible, closed -> the bucket-closed error, store deleted -> some error, never a panic), GetBucketNames, the registry reference counts (verif-only accessor) and the existence of the database file are compared with the model; concurrent open/close storms on an already-created bucket (also under the race detector) with invariants at quiescence; step ForeignFile puts a file that is not rosmar's into the bucket directory (a directory without a bucket: ReOpenExisting must fail, CreateNew is not pinned; CloseAndDelete must still drop the registry entry); on-disk URLs are passed as rosmar://dir, file://dir and a plain path in turn; cold-create storms (the bucket does not exist when several goroutines open it: acknowledged writes must survive close and reopen); NamedDataStore among the closed-handle probes; (in-memory URL with a path) deleting an in-memory bucket opened at <dir>?mode=memory must leave the on-disk bucket in <dir> alone; cell = (step kind, mode, bucket type, registry state, outcome)",
 		Assumptions: []string{"each on-disk directory is used with one bucket name only", "handles of a deleted bucket must fail with some error (the statement fixes the error class only for Close)"},
 		Parts: []sup.Part{
 			{Name: "enumerated-scripts", Timeout: 120 * time.Second, Count: func(t string) int { return enumShards }, Run: func(c *sup.Ctx) {
